@@ -37,7 +37,27 @@ LongVerdict(r) ==
   ELSE IF FlatOps(o.reparse) = r.ops /\ LocallyGrouped(o.reparse) THEN [ok |-> TRUE, class |-> "ok", sig |-> ""]
   ELSE [ok |-> FALSE, class |-> "reparse-regroup", sig |-> "long chain"]
 
+\* uniform chains: the left spine, run-length encoded by the driver as <<[k, op, n]>> (kind of the right operand, operator,
+\* how many such nodes in a row from the root down), and the kind of the leftmost leaf
+UniformOK(r, sp) ==
+  LET ok == IF r.operand = "a" THEN "VarRef" ELSE "Call"
+      tk == IF r.tail = "(a)" THEN "ParenExpr" ELSE "Call"
+      Run(k, n) == [k |-> k, op |-> r.op, n |-> n]
+      want == IF r.tail = "" THEN <<Run(ok, r.n - 1)>>
+              ELSE IF tk = ok THEN <<Run(ok, r.n)>>
+              ELSE <<Run(tk, 1), Run(ok, r.n - 1)>>
+  IN sp.runs = want /\ sp.left = ok /\ sp.ops = r.n - 1 + (IF r.tail = "" THEN 0 ELSE 1)
+UniformVerdict(r) ==
+  LET o == r.obs IN
+  IF Has(o, "panic") \/ Has(o, "harness_panic") THEN [ok |-> FALSE, class |-> "panic", sig |-> "parse"]
+  ELSE IF Has(o, "err") THEN [ok |-> FALSE, class |-> "rejected", sig |-> "uniform chain of " \o ToString(r.n) \o " " \o r.operand]
+  ELSE IF ~UniformOK(r, o.spine) THEN [ok |-> FALSE, class |-> "wrong-grouping", sig |-> "uniform chain of " \o ToString(r.n)]
+  ELSE IF Has(o, "rerr") THEN [ok |-> FALSE, class |-> "reparse-rejected", sig |-> "uniform chain"]
+  ELSE IF ~UniformOK(r, o.respine) THEN [ok |-> FALSE, class |-> "reparse-regroup", sig |-> "uniform chain of " \o ToString(r.n)]
+  ELSE [ok |-> TRUE, class |-> "ok", sig |-> ""]
+
 Verdict(r) ==
+  IF Has(r, "uniform") THEN UniformVerdict(r) ELSE
   IF Has(r, "long") THEN LongVerdict(r) ELSE
   LET o == r.obs IN
   IF Has(o, "panic") \/ Has(o, "harness_panic") THEN [ok |-> FALSE, class |-> "panic", sig |-> "parse"]
@@ -54,7 +74,7 @@ Verdict(r) ==
 RECURSIVE Levels(_)
 Levels(t) == IF t.k = "BinaryExpr" THEN {Prec(t.Op)} \cup Levels(t.LHS) \cup Levels(t.RHS)
              ELSE IF t.k = "ParenExpr" THEN Levels(t.Expr) ELSE {}
-NonTrivial(r) == IF Has(r, "long") THEN r.nops >= 2 ELSE r.special > 0 \/ (r.nops >= 2 /\ \E a, b \in Levels(r.want) : a # b)
+NonTrivial(r) == IF Has(r, "uniform") THEN TRUE ELSE IF Has(r, "long") THEN r.nops >= 2 ELSE r.special > 0 \/ (r.nops >= 2 /\ \E a, b \in Levels(r.want) : a # b)
 
 Init == l = 1 /\ nt = 0
 Step == /\ l <= Len(Trace)
